@@ -2,7 +2,7 @@
    refines the reference model [Spec.spec_step] on every history that stays inside the specified
    inputs ([Spec.disc] = 0 along the reference run); the excluded input classes and the behaviours of
    the pinned commit are refuted by witnesses. *)
-From HV Require Import Base.Prelude Swamp.Api Swamp.Spec.
+From HV Require Import Base.Prelude Swamp.Api Swamp.Spec Swamp.Abs.
 From Coq Require Import ZifyBool.
 Local Open Scope Z_scope.
 
@@ -103,39 +103,6 @@ Proof.
 Qed.
 
 (* ================= part 2: refinement ================= *)
-Definition sval_of (c : option content) : sval :=
-  match c with
-  | None => SVoid
-  | Some c =>
-      if c_void c then SVoid
-      else match c_sc c with
-           | Some (t, z) => SSc t z
-           | None => match c_sl c with Some l => SSl l | None => SVoid end
-           end
-  end.
-Definition abs_rec (r : rec) : srec := {| s_val := sval_of (r_c r); s_meta := r_meta r |}.
-Definition amap {A B} (f : A -> B) (l : list (Z * A)) : list (Z * B) := map (fun p => (fst p, f (snd p))) l.
-Definition abs_swamp (x : swamp) : sswamp := amap abs_rec (recs x).
-Definition abs (s : srv) : sstate := amap abs_swamp s.
-
-(* stored records of a history inside the specified inputs: one form of content, no pending flags *)
-Definition single (c : option content) : bool :=
-  match c with
-  | None => false
-  | Some c =>
-      match c_void c, c_sc c, c_sl c with
-      | true, None, None => true
-      | false, Some _, None => true
-      | false, None, Some _ => true
-      | _, _, _ => false
-      end
-  end.
-Definition wf_rec (r : rec) : bool := negb (r_dirty r) && single (r_c r).
-Definition aall {A} (f : A -> bool) (l : list (Z * A)) : bool := forallb (fun p => f (snd p)) l.
-Definition wf_swamp (x : swamp) : bool :=
-  match infl x with [] => true | _ => false end && aall wf_rec (recs x).
-Definition wf (s : srv) : bool := aall wf_swamp s.
-
 (* ---- association lists ---- *)
 Lemma aget_amap {A B} (f : A -> B) k l : aget k (amap f l) = option_map f (aget k l).
 Proof. induction l as [|[k' v] t IH]; cbn; [reflexivity|]. destruct (k =? k'); [reflexivity|exact IH]. Qed.
@@ -873,3 +840,27 @@ Theorem refuted_at_pinned_commit :
   nth_error (snd (api_run cfg_pinned srv0 w_hang)) 1 = Some RHang /\
   nth_error (snd (api_run cfg_pinned srv0 w_panic)) 1 = Some RPanic.
 Proof. vm_compute. repeat split; reflexivity. Qed.
+
+(* ================= part 4: the per-request oracle of ApiCheck.v ================= *)
+(* In a well-formed state no key is tainted, so every request is clean: there the oracle's condition
+   "inside the specified inputs and clean" is exactly the hypothesis of [step_sim], which then
+   guarantees that the faithful model answers what the reference model answers. *)
+Lemma wf_not_tainted x k : wf_swamp x = true -> tainted x k = false.
+Proof.
+  intros H. destruct (wf_swamp_inv x H) as [Hi Hall]. unfold tainted, ahas. rewrite Hi; cbn.
+  destruct (aget k (recs x)) as [r|] eqn:E; [|reflexivity].
+  rewrite (aall_aget _ _ _ _ Hall E). reflexivity.
+Qed.
+Theorem wf_clean s q : wf s = true -> clean s q = true.
+Proof.
+  intros H. unfold clean. destruct (sensitive_keys q) as [[sw ks]|]; [|reflexivity].
+  apply forallb_forall. intros k _. rewrite (wf_not_tainted _ k (wf_summon s sw H)). reflexivity.
+Qed.
+Theorem clean_step_agrees s q :
+  wf s = true -> disc (abs s) q = 0 ->
+  clean s q = true /\ snd (spec_step (abs s) q) = snd (api_step cfg_now s q).
+Proof.
+  intros Hwf D. split; [apply wf_clean; exact Hwf|].
+  pose proof (step_sim s q Hwf D) as H. destruct (api_step cfg_now s q) as [s' r]. destruct H as [H _].
+  rewrite H. reflexivity.
+Qed.
